@@ -87,9 +87,12 @@ func (c16) Generate(r *sim.Rand, tier string) *sim.Scenario {
 			h := pending[i]
 			pending = append(pending[:i], pending[i+1:]...)
 			// G sized for the largest batch; executor uses the first batch*O values
-			sc.Steps = append(sc.Steps, sim.Step{C: 0, Op: "backprop", In: []int{h}, F: randData(r, 6*O, true), Out: -1})
+			sc.Steps = append(sc.Steps, sim.Step{C: 0, Op: "backprop", In: []int{h}, F: randData(r, 40*O, true), Out: -1})
 		default:
 			batch := r.Range(1, 6)
+			if r.Bool(0.15) {
+				batch = r.Range(7, 40) // any batch size is in the quantifier
+			}
 			if r.Bool(pBatch1) {
 				batch = 1
 			}
@@ -101,7 +104,7 @@ func (c16) Generate(r *sim.Rand, tier string) *sim.Scenario {
 	}
 	for _, h := range pending {
 		if r.Bool(0.7) {
-			sc.Steps = append(sc.Steps, sim.Step{C: 0, Op: "backprop", In: []int{h}, F: randData(r, 6*O, true), Out: -1})
+			sc.Steps = append(sc.Steps, sim.Step{C: 0, Op: "backprop", In: []int{h}, F: randData(r, 40*O, true), Out: -1})
 		}
 	}
 	return sc
